@@ -597,13 +597,17 @@ def key_to_ascending_key(key: GetItemKeyType, size: int) -> GetItemKeyType:
         if key.dtype == bool:
             # a Boolean array selects by position, not by value: sorting it would move the selection
             return key
+        if key.dtype.kind == 'i':
+            # resolve negative positions to the positions they refer to; np.unique sorts and discards repeats
+            return np.unique(np.where((key < 0) & (key >= -size), key + size, key))
         return np.sort(key, kind=DEFAULT_SORT_KIND)
 
     if not len(key): #type: ignore
         return key
 
     if isinstance(key, list):
-        return sorted(key)
+        # resolve negative positions to the positions they refer to and discard repeats
+        return sorted({k + size if -size <= k < 0 else k for k in key})
 
     if isinstance(key, Series):
         return key.sort_index()
